@@ -323,7 +323,15 @@ def rule_r9(ctx):
     c12.rule_r6(ctx, rid="C05.R9")
 
 
-RULES = [rule_r1, rule_r2, rule_r3, rule_r4, rule_r5, rule_r6, rule_r7, rule_r8, rule_r9]
+def rule_r10(ctx):
+    """Shared with C12.R4 (wait/notify only while holding the condition - a wait outside the lock raises and skips the
+    end-of-request wake-ups) and C09.R3 (a worker that dies leaves queued requests unserviced with the server quiescent)."""
+    from . import c09, c12
+    c12.rule_r4(ctx, rid="C05.R10")
+    c09.rule_r3(ctx, rid="C05.R10")
+
+
+RULES = [rule_r1, rule_r2, rule_r3, rule_r4, rule_r5, rule_r6, rule_r7, rule_r8, rule_r9, rule_r10]
 
 from ..selftest import M, T, V  # noqa: E402
 
